@@ -55,7 +55,7 @@ def RW():
                  hourly_extraction_ground_loads=OpaqueOf("list"), fieldType=Str, load_years=OpaqueOf("list"), ghe=GHEs())
 
 
-contract(f"{S}:RowWiseModifiedBisectionSearch.initialize_ghe", dict(self=RW(), coordinates=Field, h=Real, field_specifier=Str),
+contract(f"{S}:RowWiseModifiedBisectionSearch.initialize_ghe", dict(self=RW(), coordinates=Field, h=Real, field_specifier=Str), name=f"{S}:RowWiseModifiedBisectionSearch.initialize_ghe#body",
          requires=[("at-least-one-borehole", lambda E: E.coordinates.len >= 1),
                    ("known-flow-type", lambda E: Or(E.self.flow_type == BOREHOLE_FLOW, E.self.flow_type == SYSTEM_FLOW))],
          ensures=[("height-set", lambda E: And(E.self.ghe.bhe.b.H == E.h, E.self.ghe.g_H0 == E.h, E.self.ghe.g_field == E.coordinates.id)),
@@ -67,6 +67,7 @@ contract(f"{S}:RowWiseModifiedBisectionSearch.initialize_ghe", dict(self=RW(), c
                                                           flow_spec(E.self.flow_type, E.self.V_flow, E.coordinates.len, E.self.fluid.rho)[0],
                                                           SPACING(E.coordinates.id, E.self.borehole.r_b), E.h))],
          returns=NoneT())
+REG.contracts[f"{S}:RowWiseModifiedBisectionSearch.initialize_ghe#body"].applies = lambda env: False
 
 
 # ---- lemmas over the contracts -------------------------------------------------------------------------------
